@@ -50,8 +50,10 @@ CLAIMED = {
     "C02": ("executable Coq model of every decoder (Raw, CopyRect, RRE, CoRRE, Hextile walk, ZRLE tile walk over the inflated stream, "
             "cursor, desktop-size, last-rect, QEMU key) run against the real client on streams produced by an RFC 6143 encoder written "
             "independently; the real client's screen must equal the encoder's framebuffer, its commits the updates sent, and a trailing "
-            "Bell must be seen last (exact consumption); theorems so far: Raw step shape, termination/landing of every decoder (C15), "
-            "chunk invariance (C01) - the per-encoding round-trip theorems are PARTIAL (see DESIGN.md)",
+            "Bell must be seen last (exact consumption); theorems: continuation-form round trips for Raw and CopyRect and for whole updates "
+            "of any number of such rectangles (begin, every callback once in order, one commit, exact consumption, Bell once afterwards), "
+            "termination/landing of every decoder (C15), chunk invariance (C01); round trips for RRE/CoRRE/Hextile/ZRLE/cursor are not "
+            "proved (PARTIAL, see DESIGN.md 9.2)",
             "zlib is an oracle tape; Pillow modelled; two ZRLE defects are recorded known findings; strict hextile carry-over reading",
             "Coq model + partial proofs; decided mainly by differential correspondence against an independent RFC 6143 encoder (translation-validation style)"),
     "C12": ("Coq model of the slice of Pillow the client uses (new/paste with clipping/frombytes raw modes/1-bit mask) and of "
@@ -80,15 +82,17 @@ CLAIMED = {
             "ASCII; float() validity and int() modelled; delay pauses compared exactly by the harness",
             "Coq proof (induction over command lists, controlled evaluation of the word tests) + differential correspondence"),
     "C17": ("Coq model of loggingproxy.RFBServer (handshake skipping, framing table, per-message handlers incl. the awaited "
-            "SetEncodings list / cut text / QEMU key) and of the recorder formatting, time in ticks of 1e-4 s; theorems about that "
-            "model (see Properties/C17.v); the real VNCLoggingServerProxy is run under a virtual clock on generated viewer sessions "
+            "SetEncodings list / cut text / QEMU key) and of the recorder formatting, time in ticks of 1e-4 s; theorems: split and "
+            "chunk-list invariance of the parser for every state and byte stream, one entry per key/pointer event in order under "
+            "every chunking, entry shapes; the real VNCLoggingServerProxy is run under a virtual clock on generated viewer sessions "
             "(3.3/3.7/3.8, None / VNC auth / --password-required, all seven message kinds) delivered message-wise, byte-wise, whole, "
             "with a cut inside every message and at random cuts, and judged against the events the viewer sent: one entry per event, "
             "in order, written during the chunk that completes the message, pause = time since the previous recorded event",
             "keysyms without a script representation (CR, surrogates, > 0x10FFFF) are the open C16/C18 findings; timestamps are virtual",
             "Coq proof over the parser/recorder model + regenerated TYPE_LEN/REVERSE_MAP/formats + differential correspondence"),
     "C16": ("Coq model of the viewer-side parser (Model/Recorder.v) and of the logging client (= library client model started at "
-            "ServerInit); theorems about the parser model (see Properties/C16.v); the real proxy pair is driven on in-memory "
+            "ServerInit); theorems about the parser: it never spins on any byte string (potential argument), handlers are local, a raise "
+            "is chunk-independent; the real proxy pair is driven on in-memory "
             "transports with causal interleavings of both directions cut at random: after every chunk each leg must have received "
             "exactly the bytes sent so far and nothing may raise; several connections on one factory (shared stream, per-connection "
             "files); the parser and the logging client are compared with the Coq models",
